@@ -102,6 +102,22 @@ def run(tier):
         ck.cov["traces_validated_against_impl"] += info.get("events", 0)
     else:
         ck.violation("ReadTrace rejected a decoder observation: %s" % info.get("rejected", "")[:1200], {"kind": "read-trace", "trace": t5})
+    # simple glyph point data (flags with run lengths, short / same / word coordinates): SimpleGlyph.tla's strict and
+    # as-written readings, every member through read_points_fast and points()
+    r = vlib.run_tlc(wd, "SimpleGlyphMC", cfg="SimpleGlyphMC_%s.cfg" % tier, workers=8, timeout=1800, xmx="12g", out_name="simpleglyph.out")
+    ck.add_tlc("tlc:SimpleGlyph", r)
+    if not r.ok:
+        ck.spec_error("SimpleGlyphMC", r)
+    t7 = os.path.join(wd, "simpleglyph.ndjson")
+    res = vlib.run_harness("fv-total", ["c01", "simpleglyph", "--cases", r.out, "--trace-every", 8 if tier == "quick" else 160, "--out", t7])
+    ck.add_harness("replay:simpleglyph", res, traces=False)
+    os.remove(r.out)
+    ok, info = vlib.validate_trace(wd, "ReadTrace", t7, timeout=1800)
+    ck.cov["parts"]["validate:simpleglyph"] = info
+    if ok:
+        ck.cov["traces_validated_against_impl"] += info.get("events", 0)
+    else:
+        ck.violation("ReadTrace rejected a simple glyph observation: %s" % info.get("rejected", "")[:1200], {"kind": "read-trace", "trace": t7})
     # the CFF INDEX reader (hand-written offset arithmetic): Index.tla's hostile byte strings and answers
     vlib.stage_specs(wd, "cff")
     r = vlib.run_tlc(wd, "IndexMC", cfg="IndexMC.cfg", workers=4, timeout=900)
